@@ -431,10 +431,13 @@ class IntegratorLearner(BaseLearner):
                         force_split
                         and not ival.children
                         and ival not in self.priority_split
+                        and ival in self.ivals
                     ):
                         # If it already has children it has already been split,
-                        # if it is already queued it will be split once.
-                        assert ival in self.ivals
+                        # if it is already queued it will be split once, and if
+                        # it was dropped while its points were being evaluated
+                        # (too narrow, too many intervals, or a removed
+                        # ancestor) there is nothing left to split.
                         self.priority_split.append(ival)
 
     def tell_pending(self):
@@ -499,6 +502,9 @@ class IntegratorLearner(BaseLearner):
     def _fill_stack(self) -> list[float]:
         # XXX: to-do if all the ivals have err=inf, take the interval
         # with the lowest rdepth and no children.
+        # An interval queued for splitting may have been dropped in the meantime.
+        while self.priority_split and self.priority_split[-1] not in self.ivals:
+            self.priority_split.pop()
         force_split = bool(self.priority_split)
         if force_split:
             ival = self.priority_split.pop()
